@@ -512,6 +512,15 @@ S["weak_direct_plus_plain_path"] = dict(
     conns=[C("D", "A", "po", "ti"), C("D", "B", "po", "ti2", weak=True),
            C("A", "B", "eo", "ti", weak=True), C("A", "X", "eo", "ti"), C("X", "B", "eo", "ti2")])
 
+# an ACYCLIC scenario with two routes between members of one group, one of them through a
+# simulator outside the group (F7: the minimum-delay closure trips over incomparable delays)
+S["incomparable_reentry"] = dict(
+    until=2, groups=G1, max_loop=5,
+    sims=[E("A", group="g", init_event=0, emit_default=0), E("B", group="g", emit_default=0),
+          E("Cc", group="g", emit_default=0), E("D", group="g"), E("X", emit_default=0)],
+    conns=[C("A", "D", "eo", "ti", weak=True), C("A", "X", "eo", "ti"), C("X", "B", "eo", "ti"),
+           C("B", "Cc", "eo", "ti", weak=True), C("Cc", "D", "eo", "ti2", weak=True)])
+
 # set_initial_event called twice for one simulator ("an initial step": the last call counts)
 S["two_initial_events_desc"] = dict(
     until=5, sims=[E("A", init_event=[3, 1], next=[None], emit_default=0), E("B")],
